@@ -13,6 +13,7 @@ import (
 // well-formed big-endian lexers (constructed by uio.NewBigEndianBuffer).
 type Modes struct {
 	NonNilParams bool
+	NoAlias      bool // decoders: no reference into a []byte parameter may be stored, boxed or returned (C08)
 	ReadOnly     bool // the function must not modify anything that existed at entry, not even its receiver (C20)
 	Safety      bool // panic-freedom obligations
 	Post        bool // ensures of the function's own contract
@@ -53,10 +54,23 @@ func paramWF(g *Gen, t types.Type, n string, st *State, isRecv bool) string {
 }
 
 func (eng *Engine) verifyFunction(fn *ssa.Function, modes Modes) (res *FnResult) {
+	return eng.verifyFunctionSpec(fn, modes, nil)
+}
+
+// verifyFunctionSpec verifies fn with some function-valued parameters bound to known top-level functions
+// (spec: parameter name -> function); the contract variant key[funcName] is used when it exists.
+func (eng *Engine) verifyFunctionSpec(fn *ssa.Function, modes Modes, spec map[string]*ssa.Function) (res *FnResult) {
 	res = &FnResult{Fn: shortFn(fn), Modes: modes}
 	g := NewGen(eng, fn)
 	res.Gen = g
 	ct := eng.contractFor(fn)
+	for _, f := range spec {
+		res.Fn += "[" + f.Name() + "]"
+		g.variant += "[" + f.Name() + "]"
+		if v := eng.contracts[shortFn(fn)+"["+f.Name()+"]"]; v != nil {
+			ct = v
+		}
+	}
 	res.Contract = ct
 	defer func() {
 		if r := recover(); r != nil {
@@ -89,7 +103,7 @@ func (eng *Engine) verifyFunction(fn *ssa.Function, modes Modes) (res *FnResult)
 	g.assume(fmt.Sprintf("(> %s 0)", st0.Next))
 	// Go memory safety for the entry heap: every reference stored anywhere is allocated (DESIGN 4.2)
 	for _, k := range []string{"L", "ML"} {
-		g.assume(fmt.Sprintf("(forall ((r Int) (o Int)) (! (< (sref (select (select %s r) o)) %s) :pattern ((select (select %s r) o))))", st0.H[k], st0.Next, st0.H[k]))
+		g.assume(fmt.Sprintf("(forall ((r Int) (o Int)) (! (let ((v (select (select %s r) o))) (and (< (sref v) %s) (<= 0 (soff v)) (<= 0 (sllen v)) (<= (sllen v) (scap v)) (=> (= (sref v) 0) (= (scap v) 0)))) :pattern ((select (select %s r) o))))", st0.H[k], st0.Next, st0.H[k]))
 	}
 	for _, k := range []string{"R", "MR"} {
 		g.assume(fmt.Sprintf("(forall ((r Int) (o Int)) (! (< (select (select %s r) o) %s) :pattern ((select (select %s r) o))))", st0.H[k], st0.Next, st0.H[k]))
@@ -117,6 +131,12 @@ func (eng *Engine) verifyFunction(fn *ssa.Function, modes Modes) (res *FnResult)
 		n := g.havoc("p_"+p.Name(), g.sortOf(p.Type()))
 		args = append(args, n)
 		isRecv := i == 0 && fn.Signature.Recv() != nil
+		if f := spec[p.Name()]; f != nil {
+			// specialised parameter: the value is exactly this function
+			top0 := &Act{g: g}
+			g.assume(fmt.Sprintf("(= %s %s)", n, top0.val(f)))
+			eng.funcByTerm[n] = f
+		}
 		g.assume(paramWF(g, p.Type(), n, st0, isRecv))
 		if modes.NonNilParams {
 			switch p.Type().Underlying().(type) {
@@ -144,7 +164,63 @@ func (eng *Engine) verifyFunction(fn *ssa.Function, modes Modes) (res *FnResult)
 		if _, isPtr := fn.Params[0].Type().Underlying().(*types.Pointer); isPtr {
 			r := g.def("modref", "Int", fmt.Sprintf("(pref %s)", args[0]))
 			g.modRefs = []string{r}
-			g.modset = func(x string) string { return fmt.Sprintf("(= %s %s)", x, r) }
+			// ... and the backing arrays of the slices stored directly in that object (appending to a field may write
+			// into the spare capacity of its array)
+			et := fn.Params[0].Type().Underlying().(*types.Pointer).Elem()
+			for _, off := range sliceSlots(et, 0) {
+				g.modRefs = append(g.modRefs, g.def("modref", "Int", fmt.Sprintf("(sref %s)", sel(st0.H["L"], fmt.Sprintf("(pref %s)", args[0]), fmt.Sprintf("(+ (poff %s) %d)", args[0], off)))))
+			}
+			recv := args[0]
+			slotsL := sliceSlots(et, 0)
+			entryH := st0.H["L"]
+			entryNext := st0.Next
+			// automatic loop invariant that goes with this default: each of those slices still uses its original array or
+			// one allocated during the call
+			g.recvSliceInv = func(st *State) []string {
+				var out []string
+				for _, off := range slotsL {
+					cur := sel(st.H["L"], fmt.Sprintf("(pref %s)", recv), fmt.Sprintf("(+ (poff %s) %d)", recv, off))
+					old := sel(entryH, fmt.Sprintf("(pref %s)", recv), fmt.Sprintf("(+ (poff %s) %d)", recv, off))
+					out = append(out, fmt.Sprintf("(and (or (= (sref %s) 0) (= (sref %s) (sref %s)) (and (>= (sref %s) %s) (< (sref %s) %s))) (<= 0 (soff %s)) (<= 0 (sllen %s)) (<= (sllen %s) (scap %s)))", cur, cur, old, cur, entryNext, cur, st.Next, cur, cur, cur, cur))
+				}
+				return out
+			}
+			refs := g.modRefs
+			g.modset = func(x string) string {
+				var alts []string
+				for _, m := range refs {
+					alts = append(alts, fmt.Sprintf("(= %s %s)", x, m))
+				}
+				if len(alts) == 1 {
+					return alts[0]
+				}
+				return "(or " + strings.Join(alts, " ") + ")"
+			}
+		}
+	}
+	if modes.NoAlias {
+		for i, p := range fn.Params {
+			if sl, ok := p.Type().Underlying().(*types.Slice); ok {
+				if b, ok := sl.Elem().Underlying().(*types.Basic); ok && b.Kind() == types.Uint8 {
+					retained := false
+					if ct != nil {
+						for _, r := range ct.Retains {
+							if r == p.Name() {
+								retained = true
+							}
+						}
+					}
+					if !retained {
+						g.inputBufs = append(g.inputBufs, args[i])
+						g.inputNames = append(g.inputNames, p.Name())
+						// no slice stored in the heap at entry already points into the input buffer: aliasing that exists
+						// before the call is not the decoder's doing (this only excludes pre-existing aliases)
+						for _, k := range []string{"L", "ML"} {
+							g.assume(fmt.Sprintf("(forall ((r Int) (o Int)) (! (or (= (sref %s) 0) (not (= (sref (select (select %s r) o)) (sref %s)))) :pattern ((select (select %s r) o))))", args[i], st0.H[k], args[i], st0.H[k]))
+						}
+					}
+				}
+			}
 		}
 	}
 	top.args = args
@@ -227,6 +303,21 @@ func (eng *Engine) verifyFunction(fn *ssa.Function, modes Modes) (res *FnResult)
 		g.note("function never returns normally")
 	}
 	return res
+}
+
+// sliceSlots: slot offsets of the slice-typed fields stored inline in an object of type t
+func sliceSlots(t types.Type, base int) []int {
+	switch u := t.Underlying().(type) {
+	case *types.Slice:
+		return []int{base}
+	case *types.Struct:
+		var out []int
+		for i := 0; i < u.NumFields(); i++ {
+			out = append(out, sliceSlots(u.Field(i).Type(), base+fieldSlot(u, i))...)
+		}
+		return out
+	}
+	return nil
 }
 
 func wrapClauseErr(cl *Clause) {
